@@ -164,6 +164,9 @@ CACHE_ASSUME = BASE_ASSUME + ["cache/ driver: bytes are a pure function of (line
 prop("C05", "The local cache returns exactly the bytes written, at the offsets written", "exploration",
      "a case = backend (disk StoreChannel in a scratch directory | MemoryChannel) x segment size 32..4096 x max size (unlimited | 3 | 8 segments) x verifyCrc x a sequence of 3-30 operations: snapshot write + log writer, log-only start, append of 1..3 segments worth of bytes (incl. exactly segment size +-1), open reader anywhere in [left-6, right+5] or near the tail, close reader, collector pass (hook), writer replacement, replication-id switch (rename), delete, new snapshot, clean close+reopen (disk). "
      "After EVERY step every byte every reader has returned so far is compared with the byte function, live readers must have delivered exactly the bytes written so far (bounded wait 10 s => inconclusive), invalidated readers may end but must not deliver other bytes; IsValidOffset => NewReader succeeds; a log reader is never handed out outside the cached range; a snapshot reader only while a complete snapshot is cached and with its geometry; GetOffsetRange never claims bytes that were collected; delete invalidates. "
+     "Readers may be slow consumers (they take 64 bytes and go on only at a later 'begin' step; the cache's own reader then sits blocked on its pipe, still holding its references); one snapshot in twelve is larger than the 2 MiB a reader buffers ahead, followed by a scripted history (appends, slow snapshot reader, appends, collector pass); "
+     "cache resets (new run, id switch, delete) are issued with the readers closed first (the input's own reader) or, one time in three, with readers still open (readers that serve followers) - the reset then has 20 s to return (a watchdog expiry there is reported as cache-reset-never-returns, both defects of this kind were deterministic lock cycles). "
+     "After every step a probe asks for both ends, their neighbours and the middle of the reported range: where IsValidOffset says yes a FRESH reader must open and deliver the right bytes. "
      "non-trivial (measured) = distinct case in which a live reader consumed more than one segment (crossed a rotation) AND a collector pass removed a segment."
      " Second unit (concurrent): backend x segment size 64..4096 x size limit (none | 6 | 20 segments; on disk a collector pass runs every millisecond meanwhile) x a source that feeds the log writer continuously in generated chunk sizes (1..5000 bytes, never waiting for the cache) x 1-6 writer replacements (the writer is closed WHILE it is appending and a new one is attached at the right end the cache then reports, as the input does on every reconnection) and 0-4 readers opened at valid offsets, both triggered when the cache has grown by generated amounts. While running every reader's bytes are compared with the byte function; after the stop, on the quiescent cache (nothing running, so no timing enters the verdict), fresh readers at the left end, the right end, the middle and around up to six segment boundaries must deliver exactly the bytes up to the reported right end.",
      [{"pkg": "c05", "test": "TestC05",
